@@ -141,6 +141,8 @@ class StlAstParserVisitor(LtlAstParserVisitor, StlParserVisitor):
         end, end_unit = self.visit(ctx.intervalTime(1))
         if begin * self.U[begin_unit or end_unit or self.unit] > end * self.U[end_unit or begin_unit or self.unit]:
             raise RTAMTException('The lower bound of an interval cannot be greater than its upper bound')
+        if begin < 0:
+            raise RTAMTException('The bounds of an interval cannot be negative')
         interval = Interval(begin, end, begin_unit, end_unit)
         return interval
 
